@@ -22,17 +22,26 @@ def plan_T(name, **kw):
 
 
 def context(obs):
-    """Where did the first request land?  '<kind>-after-<last executed command>' (or 'none')."""
+    """Where did the first interruption take effect?  '<kind>-after-<last command executed>' (or '...-after-plan-end')."""
+    from vlib.oracles import interruptions
+
+    first = None
     for r in obs.reqs:
-        if r["kind"] == "update":
-            continue
-        n = r.get("nmsgs", 0)
-        last = obs.msgs[n - 1].command if 0 < n <= len(obs.msgs) else "start"
-        if n >= len(obs.msgs) and obs.calls and r["step"] >= 0 and r.get("phase") != "paused":
-            # nothing was executed after the request landed
-            pass
-        return f"{r['kind']}-after-{last}"
-    return "none"
+        if r["kind"] != "update":
+            first = r
+            break
+    if first is None:
+        return "none"
+    ints = interruptions(obs)
+    if ints and first["kind"] in ("pause", "defer", "suspend"):
+        n = ints[0][1]
+    else:
+        n = first.get("nmsgs", 0)
+    pe = obs.plan_end
+    if pe is not None and pe[0] == "return" and pe[3] <= n and (not ints or ints[0][2] >= pe[2]):
+        return f"{first['kind']}-after-plan-end"
+    last = obs.msgs[n - 1].command if 0 < n <= len(obs.msgs) else "start"
+    return f"{first['kind']}-after-{last}"
 
 
 def make_sweep(P, oracle, *, plans, kinds=KINDS, decisions=DECISIONS, two=False, faults=False, re_kwargs=None, extra=None, goals_fn=None, ctx=False):
@@ -77,7 +86,9 @@ def make_sweep(P, oracle, *, plans, kinds=KINDS, decisions=DECISIONS, two=False,
                 goals_fn(obs, case)
             std_goals(obs)
             if ctx:
-                tags = [f"{t}@{case['ctx']}" for t in tags]
+                tags = [t[1:] if t.startswith("!") else f"{t}@{case['ctx']}" for t in tags]
+            else:
+                tags = [t[1:] if t.startswith("!") else t for t in tags]
             return ";".join(sorted(set(tags)))
 
     return h
